@@ -463,7 +463,12 @@ class InMemoryStateStore(Generic[MODEL_T]):
         Returns:
             MODEL_T: A `.model_copy()` of the internal Pydantic model.
         """
-        return self._state.model_copy()
+        state = self._state.model_copy()
+        if isinstance(state, DictLikeModel):
+            # model_copy() shares private attributes: give the snapshot its own
+            # top-level dict so that editing it does not edit the store
+            state._data = dict(state._data)
+        return state
 
     async def set_state(self, state: MODEL_T) -> None:
         """Replace or merge into the current state model.
